@@ -111,7 +111,7 @@ func gelsOracle(ck *checker, what string, op, b, x M, well bool) {
 func genGels(g *vlib.G) {
 	N := vlib.Pick(g, 12, 13)
 	nbs := vlib.Pick(g, []int{1, 2, 3, 4}, []int{1, 2, 3, 4, 5})
-	fams := pickFams(generalFams(N, false), "dd", "had", "rowgraded", "colgraded", "id", "zero", "zerocol0", fmt.Sprintf("zerocol%d", N/2))
+	fams := pickFams(generalFams(N, false), "dd", "had", "rowgraded", "colgraded", "id", "zero", "signmix", "cluster", "zerocol0", fmt.Sprintf("zerocol%d", N/2))
 	type scl struct {
 		name   string
 		ea, eb int
